@@ -147,7 +147,11 @@ def check(v, props, quick_cfg):
     desc = lambda s: 'gen=%d up=%s closed=%s on_close=%d answered=%d waiting=%d' % (s['gen'], s['up'], s['appClosed'], s['closeCbs'], s['answered'], s['waiting'])
     graphreplay.replay(v, 'Lifecycle', cfg, RealLifecycle, _apply, _compare, _state, prop=props[0].rstrip('.'), label='lifecycle', describe=desc,
                        nondet=True)
-    # code -> spec: what was recorded along the replayed paths, judged by the monitors of RSocket.tla
+    _validate_paths(v, props, 'Lifecycle', 'lifecycle')
+
+
+def _validate_paths(v, props, model, label):
+    """code -> spec: what was recorded along the replayed paths, judged by the monitors of RSocket.tla"""
     batch = [{'tid': i + 1, 'events': t['events']} for i, t in enumerate(_TRACES)]
     res, stats = trace.validate(batch)
     n = 0
@@ -158,12 +162,140 @@ def check(v, props, quick_cfg):
                 if n <= 20:
                     ev = [e for e in batch[tid - 1]['events'] if e['ev'] != 'bytes_in']
                     e0 = ev[idx - 1] if 0 < idx <= len(ev) else {}
-                    v.add_failure(clause, {'model': 'Lifecycle', 'ev': e0.get('ev', '')},
-                                  'life-cycle path %d, event #%d %s' % (tid, idx, {a: b for a, b in e0.items() if b not in (0, '', -1, [], None)}),
+                    v.add_failure(clause, {'model': model, 'ev': e0.get('ev', '')},
+                                  '%s path %d, event #%d %s' % (model, tid, idx, {a: b for a, b in e0.items() if b not in (0, '', -1, [], None)}),
                                   {'kind': 'conn', 'opts': _TRACES[tid - 1]['opts'], 'prog': _TRACES[tid - 1]['prog']})
             else:
                 v.coverage.setdefault('other_properties_observed', {})
                 v.coverage['other_properties_observed'][clause] = v.coverage['other_properties_observed'].get(clause, 0) + 1
-    v.add('lifecycle_paths_trace_validated', len(batch))
-    v.add('lifecycle_trace_events_validated', sum(len(t['events']) for t in batch))
+    v.add(label + '_paths_trace_validated', len(batch))
+    v.add(label + '_trace_events_validated', sum(len(t['events']) for t in batch))
     del _TRACES[:]
+
+
+# ---------------------------------------------------------------------------------------------------------------------------------
+# ServerLifecycle.tla: one server-side connection - close() by the server application, loss of the client, requests either way, and
+# races that start with close()
+
+class RealServerLifecycle:
+    def __init__(self):
+        import logging
+        logging.disable(logging.CRITICAL)
+        from ..harness import prog
+        self.opts = {'mode': 'tcp', 'keepalive_ms': 60000, 'lifetime_ms': 600000, 'read_buffer': 1024}
+        self.ex = prog.Exec(dict(self.opts))
+        self.steps = []
+        self._do(['start'])
+        self._do(['pump'])
+        self.sent = 0            # requests the server application made
+        self.asked = 0           # requests the client made
+
+    def _do(self, st):
+        self.steps.append(st)
+        self.ex.do(st)
+
+    def _call(self, a):
+        if a == 'probe':
+            self.sent += 1
+            self._do(['probe', 's', [5 + self.sent, 0], [3, self.sent]])
+        elif a == 'pend':
+            self.sent += 1
+            self._do(['rr', 's', [9, self.sent], {'mode': 'later'}])
+        elif a == 'handle':
+            self.asked += 1
+            self._do(['rr', 'c', [12, self.asked], {'mode': 'later'}])
+        elif a == 'cut':
+            self._do(['cut', 'c', 'eof'])            # the client's direction ends: the server reads EOF
+        elif a == 'cuterr':
+            self._do(['cut', 's', 'error'])          # the server's own writes fail
+        elif a == 'close':
+            self._do(['close', 's'])
+        else:
+            raise common.Machinery('unknown call %r' % (a,))
+
+    def act(self, name, args):
+        if name == 'Race':
+            a, j = args[0], int(args[1])
+            self._do(['close', 's', j])
+            if a == 'close':
+                self._do(['close', 's', 0])
+            else:
+                self._call(a)
+        else:
+            self._call({'Probe': 'probe', 'Pend': 'pend', 'Handle': 'handle', 'Cut': 'cut', 'CutErr': 'cuterr', 'Close': 'close'}[name])
+        self._do(['pump'])
+
+    def observe(self):
+        o = {'closeCbs': 0, 'tclosed': 0, 'answered': 0, 'cancelled': 0, 'handled': 0}
+        mine = set()
+        for e in self.ex.w.rec.events:
+            if e['ev'] == 'app_request' and e['ep'] == 's':
+                mine.add(e['iid'])
+            if e['ep'] != 's':
+                continue
+            if e['ev'] == 'cb_close':
+                o['closeCbs'] += 1
+            elif e['ev'] == 'transport_closed':
+                o['tclosed'] += 1
+            elif e['ev'] == 'cb_future' and e.get('iid') in mine:
+                o['answered'] += 1
+            elif e['ev'] == 'cb_resp_future_done':
+                o['cancelled'] += 1
+            elif e['ev'] == 'cb_request':
+                o['handled'] += 1
+        o['waiting'] = self.sent - o['answered']
+        return o
+
+    def close(self):
+        try:
+            self._do(['finish'])
+            _TRACES.append({'events': list(self.ex.w.rec.events), 'opts': self.opts, 'prog': self.steps})
+        except BaseException:
+            pass
+        try:
+            self.ex.w.close()
+        except BaseException:
+            pass
+
+
+def _sstate(vs):
+    k = tlc.parse_value(vs['k'])
+    d = {key: k[key] for key in ('closeCbs', 'tclosed', 'answered', 'hung', 'pending', 'handling', 'cancelled', 'up', 'appClosed')}
+    d['waiting'] = k['hung'] + k['pending']
+    return d
+
+
+def _sapply(real, name, args, before):
+    real.act(name, args)
+    return None
+
+
+def _scompare(real, exp, obs):
+    o = real.observe()
+    if o['closeCbs'] > 1:
+        return ('C11.on_close_exactly_once', '%d on_close callbacks on one server-side connection' % o['closeCbs'])
+    for key in ('closeCbs', 'tclosed', 'answered', 'waiting', 'cancelled'):
+        if o[key] != exp[key]:
+            return ('DRIFT', '%s is %s, the specification says %s' % (key, o[key], exp[key]))
+    return None
+
+
+def check_server(v, props):
+    """ServerLifecycle.tla: (A) TLC, (B) nondeterministic graph replay on a real pair observed at the SERVER endpoint, (C) the recorded
+    paths validated against RSocket.tla (the C11 clauses judge)"""
+    del _TRACES[:]
+    thorough = common.tier() == 'thorough'
+    cfg = 'ServerLifecycle_wide.cfg' if thorough else 'ServerLifecycle.cfg'
+    r = tlc.run('ServerLifecycle', cfg, workers=2, timeout=900, name='slifecycle')
+    if r.timed_out or not r.finished:
+        raise common.Machinery('TLC did not finish on ServerLifecycle/%s: %s' % (cfg, r.out[-1500:]))
+    if r.violated:
+        v.add_failure('%sdesign_%s' % (props[0], r.violated), {'cfg': cfg}, 'TLC: %s violated in the server life-cycle model %s' % (r.violated, cfg))
+    v.add('states', r.distinct)
+    v.add('transitions', r.generated)
+    v.coverage.setdefault('mc_configs', {})[cfg] = {'states': r.distinct, 'transitions': r.generated, 'depth': r.depth, 'wall_s': round(r.wall, 1)}
+    desc = lambda s: 'up=%s closed=%s on_close=%d answered=%d waiting=%d handling=%d cancelled=%d' % (
+        s['up'], s['appClosed'], s['closeCbs'], s['answered'], s['waiting'], s['handling'], s['cancelled'])
+    graphreplay.replay(v, 'ServerLifecycle', cfg, RealServerLifecycle, _sapply, _scompare, _sstate, prop=props[0].rstrip('.'), label='slifecycle',
+                       describe=desc, nondet=True)
+    _validate_paths(v, props, 'ServerLifecycle', 'slifecycle')
